@@ -28,7 +28,8 @@ Proof.
     try (injection H as _ <-; exact Hc).
   destruct (compile_program (4 * List.length (escript e) + 40) ast) as [pc| | |];
     try (injection H as _ <-; exact Hc).
-  destruct (if match env_get (if flag then env_set (eenv e) optimize_var (VBool true) else eenv e)
+  destruct (if match env_get (if flag then env_set (eenv e) optimize_var (VBool true)
+                              else env_unset (eenv e) optimize_var)
                        optimize_var with Some _ => true | None => false end
             then optimize_program pc else Some pc) as [prog|];
     injection H as _ <-; [|exact Hc].
@@ -153,7 +154,36 @@ Qed.
 (* C20: Prepare *)
 
 Definition prep_env (e : eval) (flag : bool) : env :=
-  if flag then env_set (eenv e) optimize_var (VBool true) else eenv e.
+  if flag then env_set (eenv e) optimize_var (VBool true) else env_unset (eenv e) optimize_var.
+
+(* a removed global is gone; where no local holds the name it is unset *)
+Lemma assoc_remove_get : forall n l, assoc_get n (assoc_remove n l) = None.
+Proof.
+  intros n. induction l as [|[k x] l IH]; cbn [assoc_remove assoc_get]; [reflexivity|].
+  destruct (str_eqb k n) eqn:E; [exact IH|]. cbn [assoc_get]. rewrite E. exact IH.
+Qed.
+
+Lemma assoc_remove_absent : forall n l, assoc_get n l = None -> assoc_remove n l = l.
+Proof.
+  intros n. induction l as [|[k x] l IH]; cbn [assoc_remove assoc_get]; intro H; [reflexivity|].
+  destruct (str_eqb k n); [discriminate H|]. rewrite (IH H). reflexivity.
+Qed.
+
+Lemma unset_get : forall e n, env_get (env_unset e n) n = local_get n (scopes e).
+Proof.
+  intros e n. unfold env_get, env_unset. cbn [scopes globals]. rewrite assoc_remove_get.
+  destruct (local_get n (scopes e)); reflexivity.
+Qed.
+
+Lemma unset_get_clean : forall e n, scopes e = [] -> env_get (env_unset e n) n = None.
+Proof. intros e n H. rewrite unset_get, H. reflexivity. Qed.
+
+Lemma unset_absent : forall e n, env_get e n = None -> env_unset e n = e.
+Proof.
+  intros [g ss] n H. unfold env_get in H. cbn [scopes globals] in H.
+  destruct (local_get n ss); [discriminate H|].
+  unfold env_unset. cbn [scopes globals]. rewrite (assoc_remove_absent n g H). reflexivity.
+Qed.
 
 Lemma prepare_ok : forall o e flag u p e',
   prepare o e flag = (PrepOk u p, e') ->
@@ -177,12 +207,34 @@ Proof.
     split; reflexivity.
 Qed.
 
+(* NoOptimize: the machine gets the compiled program itself, whatever the variables
+   hold, as soon as no local scope holds the switch (none is open between operations) *)
+Lemma nooptimize_only_local : forall o e u p e',
+  prepare o e false = (PrepOk u p, e') -> local_get optimize_var (scopes (eenv e)) = None -> p = u.
+Proof.
+  intros o e u p e' H Hn. apply prepare_ok in H. destruct H as [_ [Hp _]].
+  cbn [prep_env] in Hp. rewrite unset_get, Hn in Hp. injection Hp as <-. reflexivity.
+Qed.
+
 Lemma nooptimize_only : forall o e u p e',
+  prepare o e false = (PrepOk u p, e') -> scopes (eenv e) = [] -> p = u.
+Proof.
+  intros o e u p e' H Hc. apply (nooptimize_only_local o e u p e' H). rewrite Hc. reflexivity.
+Qed.
+
+(* the variables it leaves: the OPTIMIZE switch removed, nothing else; none removed if it was unset *)
+Lemma nooptimize_variables : forall o e u p e',
+  prepare o e false = (PrepOk u p, e') -> eenv e' = env_unset (eenv e) optimize_var.
+Proof. intros o e u p e' H. apply prepare_ok in H. destruct H as [_ [_ ->]]. reflexivity. Qed.
+
+Lemma nooptimize_keeps_variables : forall o e u p e',
   env_get (eenv e) optimize_var = None ->
   prepare o e false = (PrepOk u p, e') -> p = u /\ eenv e' = eenv e.
 Proof.
-  intros o e u p e' Hn H. apply prepare_ok in H. destruct H as [_ [Hp ->]].
-  cbn [prep_env eenv] in *. rewrite Hn in Hp. injection Hp as <-. split; reflexivity.
+  intros o e u p e' Hn H. split.
+  - apply (nooptimize_only_local o e u p e' H). unfold env_get in Hn.
+    destruct (local_get optimize_var (scopes (eenv e))); [discriminate Hn|reflexivity].
+  - rewrite (nooptimize_variables o e u p e' H). apply unset_absent. exact Hn.
 Qed.
 
 Lemma optimize_only : forall o e u p e',
@@ -199,7 +251,7 @@ Lemma prep_env_again : forall e flag p,
 Proof.
   intros e flag p. destruct flag; cbn [prep_env eenv].
   - rewrite !set_get_same. reflexivity.
-  - reflexivity.
+  - rewrite !unset_get. reflexivity.
 Qed.
 
 Lemma prepare_idempotent : forall o e flag u p e1 u' p' e2,
@@ -213,4 +265,15 @@ Proof.
   rewrite Ec in Ec'. injection Ec' as <-.
   rewrite prep_env_again in Hp'. rewrite Hp in Hp'. injection Hp' as <-.
   split; reflexivity.
+Qed.
+
+(* NoOptimize after an optimizing Prepare: the switch the first one left among the
+   variables does not make the second one optimize *)
+Lemma nooptimize_after_optimize : forall o e u1 p1 e1 u2 p2 e2,
+  scopes (eenv e) = [] ->
+  prepare o e true = (PrepOk u1 p1, e1) -> prepare o e1 false = (PrepOk u2 p2, e2) ->
+  p2 = u2.
+Proof.
+  intros o e u1 p1 e1 u2 p2 e2 Hc H1 H2.
+  apply (nooptimize_only o e1 u2 p2 e2 H2). exact (prepare_clean o e true _ e1 Hc H1).
 Qed.
